@@ -179,7 +179,78 @@ def runs(toks):
                 cur = [pos, t.ann, [t]]; out.append(cur)
     return out
 
-def weave(template_toks, cur_toks, what="", degrade=False):
+def _loop_headers(T):
+    """[(kw_index, brace_index)] of the loops in token list T, in source order"""
+    out = []
+    for i, t in enumerate(T):
+        if t.kind == "ident" and t.text in ("for", "while", "loop") and (i == 0 or T[i - 1].text not in (".", "::", "'")):
+            if t.text == "for" and i > 0 and T[i - 1].text in ("<", "impl"): continue     # `for<'a>` / `impl X for Y`
+            b = first_brace_depth0(T, i + 1)
+            if b is not None and b >= 0 and b < len(T) and T[b].text == "{": out.append((i, b))
+    return out
+
+def _align_seg(S, C, i1, i2, j1, j2, s2c):
+    if i2 <= i1 or j2 <= j1: return
+    sm = difflib.SequenceMatcher(None, [t.text for t in S[i1:i2]], [t.text for t in C[j1:j2]], autojunk=False)
+    for tag, a1, a2, b1, b2 in sm.get_opcodes():
+        if tag == "equal":
+            for d in range(a2 - a1): s2c[i1 + a1 + d] = j1 + b1 + d
+
+def _align(S, C):
+    """skeleton index -> current index for tokens considered unchanged. When both versions have the same number of loops, the
+    k-th loop header of the skeleton is aligned with the k-th loop header of the source (so statements that merely moved across
+    a loop boundary cannot make the matcher lose the loop and, with it, the loop invariants)."""
+    s2c = {}
+    hs, hc = _loop_headers(S), _loop_headers(C)
+    if hs and len(hs) == len(hc) and all(S[a].text == C[b].text for (a, _), (b, _) in zip(hs, hc)):
+        ps = pc = 0
+        for (ks, bs), (kc, bc) in zip(hs, hc):
+            if ks < ps or kc < pc:      # nested header inside the previous header span: give up the segmentation
+                s2c.clear(); _align_seg(S, C, 0, len(S), 0, len(C), s2c); return s2c
+            _align_seg(S, C, ps, ks, pc, kc, s2c)
+            _align_seg(S, C, ks, bs + 1, kc, bc + 1, s2c)
+            s2c[ks] = kc; s2c[bs] = bc
+            ps, pc = bs + 1, bc + 1
+        _align_seg(S, C, ps, len(S), pc, len(C), s2c)
+    else:
+        _align_seg(S, C, 0, len(S), 0, len(C), s2c)
+    return s2c
+
+def _pure_rename(S, C):
+    """S, C: token lists of equal length. Returns {old: new} if they differ only by a consistent, capture-free renaming of
+    identifiers that are bound locally (each renamed name occurs at least once right after `let`, `let mut`, `for`, `|` or as
+    a parameter / pattern binding `name:` / `mut name`), else None."""
+    m = {}
+    for a, b in zip(S, C):
+        if a.text == b.text: continue
+        if a.kind != "ident" or b.kind != "ident": return None
+        if m.get(a.text, b.text) != b.text: return None
+        m[a.text] = b.text
+    if not m: return None
+    if len(set(m.values())) != len(m): return None
+    old_names = set(t.text for t in S if t.kind == "ident")
+    for o, n in m.items():
+        if n in old_names: return None                     # capture: the new name already meant something else
+    for a, b in zip(S, C):
+        if a.kind == "ident" and a.text in m and b.text != m[a.text]: return None   # not renamed everywhere
+    # every renamed name must be a local binding, never a field / method / path segment
+    for i, a in enumerate(S):
+        if a.kind == "ident" and a.text in m:
+            prev = S[i - 1].text if i > 0 else ""
+            nxt = S[i + 1].text if i + 1 < len(S) else ""
+            if prev in (".", "::") or nxt == "::": return None
+    bound = set()
+    for i, a in enumerate(S):
+        if a.kind == "ident" and a.text in m:
+            prev = S[i - 1].text if i > 0 else ""
+            prev2 = S[i - 2].text if i > 1 else ""
+            nxt = S[i + 1].text if i + 1 < len(S) else ""
+            if prev in ("let", "for", "|", "(", ",") or (prev == "mut" and prev2 in ("let", "(", ",", "|")) or (prev == "&" and prev2 in ("(", ",", "|")) or nxt == ":":
+                bound.add(a.text)
+    if bound != set(m): return None
+    return m
+
+def weave(template_toks, cur_toks, what="", degrade=False, force_drop=None, dropped_out=None):
     """template_toks: marked tokens of the template item; cur_toks: tokens of the current
     source item (already rewritten, 'drop' tokens removed). Returns (out_tokens, notes).
     Annotations whose structural anchor no longer exists in the current source (a loop that was
@@ -196,20 +267,35 @@ def weave(template_toks, cur_toks, what="", degrade=False):
     for ti, t in enumerate(template_toks):
         if t.ann is None:
             tidx2s[ti] = k; k += 1
-    if st == ct:
+    ren = None
+    if st != ct and len(st) == len(ct):
+        ren = _pure_rename(S, C)
+    if ren:
+        # the only difference is a consistent renaming of local identifiers: carry it over to the annotations (a renamed
+        # local must not turn into dropped invariants and then into a spurious failure)
+        for t in template_toks:
+            if t.ann is not None and t.kind == "ident" and t.text in ren:
+                t.text = ren[t.text]
+        notes.append("%s: local identifiers renamed in the source, annotations follow: %s" % (what, ", ".join("%s->%s" % kv for kv in sorted(ren.items()))))
+        R = runs(template_toks)
+        s2c = {i: i for i in range(len(S))}
+    elif st == ct:
         s2c = {i: i for i in range(len(S))}
     else:
-        sm = difflib.SequenceMatcher(None, st, ct, autojunk=False)
-        s2c = {}
-        for tag, i1, i2, j1, j2 in sm.get_opcodes():
-            if tag == "equal":
-                for d in range(i2 - i1):
-                    s2c[i1 + d] = j1 + d
+        s2c = _align(S, C)
         notes.append("%s: source differs from pinned skeleton: %d/%d tokens aligned" % (what, len(s2c), len(S)))
     inserts = {}
     def drop(kind, rt, why):
         notes.append("DROPPED %s: %s annotation `%s` (%s)" % (what, kind, " ".join(x.text for x in rt[:10]), why))
+    _order = [None]
+    _drop0 = drop
+    def drop(kind, rt, why):
+        if dropped_out is not None: dropped_out.append(_order[0])
+        _drop0(kind, rt, why)
     for order, (pos, kind, rt) in enumerate(R):
+        _order[0] = order
+        if force_drop is not None and order in force_drop:
+            drop(kind, rt, "pinned replay: dropped as on the changed source"); continue
         if degrade and kind in ("ghost", "lclause", "iter"):
             drop(kind, rt, "degraded mode"); continue
         at = None
